@@ -300,7 +300,10 @@ def check_obs(tier):
            bound='1 failed block and parity levels 1..2 (thorough: 2 failed blocks, levels 1..3), every readability pattern of the parities and every sequence of validation verdicts',
            defs={'REPAIR_LEVEL_MAX': 3 if tier == 'thorough' else 2, 'NFAIL': 2 if tier == 'thorough' else 1, 'NATT': 4 if tier == 'thorough' else 3},
            note='raid_data / raid_gen / is_hash_matching / is_parity_matching replaced by recording contracts (goto-instrument --dfcc)'),
-    ]
+        ] + [Ob('check.repair_step.beyond_parity.f%d.l%d' % (fc, lv), K, 'h_repair_step_many', route='dfcc', replace=['raid_data', 'raid_gen', 'is_hash_matching', 'is_parity_matching'], unwind=16, small_path=True, object_bits=12, solver=KISSAT,
+           timeout=1500, mem=8, cost=8, functions=cf('repair_step'), replay=False, defs={'VERIF_MANY': None, 'NFAIL': 3, 'NATT': 3, 'REPAIR_LEVEL_MAX': 6, 'MANY_FC': fc, 'MANY_LEVEL': lv},
+           note='%d failed blocks, %d parity levels%s: memory safety of the real function and "no strategy"' % (fc, lv, ' (more failed blocks than LEV_MAX, the size of the local index vectors)' if fc > 6 else ''))
+           for fc, lv in ((3, 2), (7, 1), (7, 6), (8, 6))] + [    ]
 
 
 def elem_obs(tier):
@@ -478,6 +481,28 @@ MAIN_SYNC = dict(region='main_sync', file='cmdline/snapraid.c', begin='state.cle
                  prologue='\tstruct snapraid_state state = *state_p;\n\tstruct snapraid_option opt = *opt_p;\n\tint ret;', epilogue='\t*state_p = state;')
 
 
+SCAN_FILE = dict(region='scan_file', file='cmdline/scan.c', begin='static void scan_file(struct snapraid_scan* scan, int is_diff, const char* sub, struct stat* st, uint64_t physical)',
+                 end=' * Remove the specified dir from the data set.', max_lines=460, expect_loops=1,
+                 proto='static void region_scan_file(struct snapraid_scan *scan, int is_diff, const char *sub, struct stat *st, uint64_t physical)',
+                 prologue='\t/* the region text is the whole body block of scan_file() followed by the opening of the next doc comment (closed by the end marker) */')
+
+
+def scanfile_obs():
+    F = 'harness/h_scanfile.c'
+    return [Ob('scan.scan_file', F, 'h_scan_file', inject=[SCAN_FILE], unwind=6, small_path=True, timeout=1800, mem=8, cost=15, replay=False,
+               functions=['scan_file (cmdline/scan.c; whole body extracted mechanically, every callee routed to a recording stub)'],
+               note='every size / time-stamp / inode / link count of the entry, every recorded file found by inode and / or by path (same or another object), disk inode / uuid capabilities, --force-zero, --force-nocopy, sync and diff, two disks in the copy search'),
+            Ob('scan.full_hashed', F, 'h_full_hashed', inject=[SCAN_FILE], unwind=6, small_path=True, timeout=900, mem=6, cost=4, kind='bounded', bound='files of at most 4 blocks',
+               functions=['file_is_full_hashed_and_stable (cmdline/scan.c)', 'block_has_updated_hash (cmdline/elem.h)'],
+               note='every block state, mapped / unmapped position and rehash mark per block; fs_file2block_get / fs_file2par_find / info_get by stub')]
+
+
+def filecopy_obs():
+    return [Ob('elem.file_copy.hash%d' % hs, 'harness/h_elem.c', 'h_file_copy', defs={'HASH_SZ': hs}, unwind=18, small_path=True, timeout=900, mem=6, cost=4, kind='bounded',
+               bound='files of at most 3 blocks, hash size %d' % hs,
+               functions=['file_copy (cmdline/elem.c)'], note='every source / destination hash, source state BLK or REP, every destination state and flag word') for hs in (16, 4)]
+
+
 def main_obs():
     M = 'harness/h_main.c'
     return [Ob('main.config.region', M, 'h_main_config', inject=[MAIN_CONFIG, MAIN_SYNC], unwind=4, small_path=True, timeout=600, mem=6, cost=3,
@@ -509,7 +534,7 @@ def c14(tier, seed):
         Ob('parity.allocated_size', P, 'h_allocated_size', unwind=8, small_path=True, timeout=900, mem=6, cost=8, kind='bounded', bound='1..3 disks of at most 5 positions, every block state at every position',
            functions=['parity_allocated_size (cmdline/parity.c)', 'block_has_file (cmdline/elem.h)'], note='fs_size / fs_par2block_find by stub over a symbolic block table'),
     ]
-    return obs + main_obs()
+    return obs + main_obs() + scanfile_obs()[:1]
 
 
 def c06(tier, seed):
@@ -536,7 +561,7 @@ def import_obs():
 
 
 def c19(tier, seed):
-    return sync_hash_obs() + sync_prehash_obs() + import_obs()
+    return sync_hash_obs() + sync_prehash_obs() + import_obs() + scanfile_obs() + filecopy_obs()
 
 
 def c09(tier, seed):
